@@ -250,6 +250,22 @@ class Sim:
         import openmdao.utils.relevance as rel
         tol = self.nl_tol()
         rel._no_relevance = ('norel' in self.variant)
+        if op.get('same') and self.p is not None:
+            # Problem.setup() called again on the same Problem object (what a user does after changing the
+            # model): everything declared before the first setup is still in place
+            try:
+                kn = self.knobs
+                mode = 'fwd' if 'modefwd' in self.variant else kn.get('mode', 'auto')
+                self.p.setup(mode=mode, force_alloc_complex=bool(kn.get('complex', False)))
+            finally:
+                rel._no_relevance = False
+            self.setup_done = True
+            self._fired_at_setup = len(self.rt.fired)
+            self.final = False
+            self.clean = False
+            self.ref = Ref(self.world)
+            self.probes.inc('setup_again_on_same_problem')
+            return None
         try:
             self.p, self.groups = B.build(self.world, self.rt, name=self.name, tol=tol,
                                           reorder=bool(self.world.get('auto_order')))
@@ -267,6 +283,12 @@ class Sim:
             if kn.get('approx_totals') and 'colored' in self.variant:
                 self.p.model.declare_coloring(wrt='*', method=kn['approx_totals']['method'], num_full_jacs=2,
                                               tol=1e-20, show_summary=False, show_sparsity=False)
+            if kn.get('total_coloring'):
+                # dynamic simultaneous-derivative colouring of the totals (used by compute_totals when it is
+                # asked for the driver's own design variables and responses)
+                self.p.driver = om.ScipyOptimizeDriver()
+                self.p.driver.declare_coloring(num_full_jacs=2, tol=1e-20, show_summary=False, show_sparsity=False,
+                                               min_improve_pct=kn.get('coloring_min_improve', 5.0))
             mode = 'fwd' if 'modefwd' in self.variant else kn.get('mode', 'auto')
             self.p.setup(mode=mode, force_alloc_complex=bool(kn.get('complex', False)))
         finally:
@@ -280,7 +302,12 @@ class Sim:
         return None
 
     def op_linearize(self, op):
-        self.p.model.run_linearize()
+        # a model that approximates its own totals needs the driver to initialise the approximations
+        # (documented on Group.run_linearize)
+        if self.knobs.get('approx_totals'):
+            self.p.model.run_linearize(driver=self.p.driver)
+        else:
+            self.p.model.run_linearize()
 
     def op_final_setup(self, op):
         self.p.final_setup()
@@ -362,6 +389,12 @@ class Sim:
         T = self.p.compute_totals(return_format=op.get('fmt', 'flat_dict'),
                                   driver_scaling=bool(op.get('driver_scaling', False)), **kw)
         self.st.inc('totals')
+        if self.knobs.get('total_coloring') and not op.get('explicit', True):
+            ci = getattr(self.p.driver, '_coloring_info', None)
+            if ci is not None and ci.coloring is not None:
+                self.probes.inc('totals_computed_with_total_coloring')
+            else:
+                self.probes.inc('total_coloring_declared_but_rejected_or_absent')
         return self._totals_to_blocks(T, of, wrt, op)
 
     def _totals_to_blocks(self, T, of, wrt, op):
@@ -408,10 +441,16 @@ class Sim:
             return 1.0 / (v.get('ref', 1.0) - v.get('ref0', 0.0))
         return 1.0
 
-    def ref_total(self, J, r, d, driver_scaling=False):
+    def ref_total(self, J, r, d, driver_scaling=False, voi_units=True):
         key = d['name'] if d['kind'] == 'out' else '_auto:' + d['name']
         blk = self.ref.total(J, r['name'], key)
         blk = blk[np.ix_(self._voi_idx(r), self._voi_idx(d))]
+        # units= on a design variable / response: the total is expressed in those units, with or without
+        # driver scaling (value_in_voi_units = value * factor + offset)
+        if voi_units and r.get('units'):
+            blk = blk * conv(self.own[r['name']][2]['units'], r['units'])[0]
+        if voi_units and d.get('units'):
+            blk = blk / conv(self.own[d['name']][2]['units'], d['units'])[0]
         if driver_scaling:
             blk = blk * self._voi_scale(r) / self._voi_scale(d)
         return blk
@@ -600,14 +639,30 @@ class Sim:
         y = self.ref.solve()
         J = self.ref.jac_full(y)
         of, wrt = self._of_wrt(op)
+        approximated = self.knobs.get('approx_totals') or self.knobs.get('group_approx') or \
+            any(c.get('approx') for c in self.world['comps'])
+        abound = self.approx_abs_bound() if approximated else 0.0
+        # OpenMDAO expresses a total in the units= of the design variable / response only for the
+        # "optimization jacobian", i.e. when all of the driver's responses and design variables are asked for
+        # in their declared order (total_jac: `if not has_custom_derivs: self._identify_unit_active_vars()`);
+        # any other of/wrt selection is answered in model units.
+        opt_jac = [r['name'] for r in of] == [r['name'] for r in self.world['resps']] and \
+            [d['name'] for d in wrt] == [d['name'] for d in self.world['dvs']]
         for r in of:
             for d in wrt:
-                want = self.ref_total(J, r, d, bool(op.get('driver_scaling', False)))
+                want = self.ref_total(J, r, d, bool(op.get('driver_scaling', False)), voi_units=opt_jac)
                 got = blocks[(r['name'], d['name'])]
                 e = relerr(got, want, floor=1e-3 * max(1.0, float(np.abs(J).max())) + 1e-12)
                 tol = self.tol * 10
-                if self.knobs.get('approx_totals') or any(c.get('approx') for c in self.world['comps']):
-                    tol = max(tol, self.approx_tol())
+                if e > tol and abound > 0.0:
+                    sc = abs(self._voi_scale(r) / self._voi_scale(d)) if op.get('driver_scaling') else 1.0
+                    g_ = np.asarray(got, dtype=float)
+                    if g_.shape == want.shape and np.all(np.isfinite(g_)) and \
+                            float(np.abs(g_ - want).max()) <= abound * sc:
+                        self.probes.inc('approx_error_within_method_bound')
+                        if abound * sc >= 0.5 * (float(np.abs(want).max()) + 1e-300):
+                            self.probes.inc('approx_bound_vacuous')
+                        continue
                 if e > tol:
                     self.V(inv, f"d({r['name']})/d({d['name']}) differs from the reference by {e:.3g} (rel): got "
                            f"{np.asarray(got).tolist()} want {want.tolist()} (mode={self.knobs.get('mode')}, "
@@ -617,17 +672,116 @@ class Sim:
         self.st.inc('totals_checked')
         return True
 
-    def approx_tol(self):
-        tol = 1e-8
-        cands = [c['approx'] for c in self.world['comps'] if c.get('approx')]
-        if self.knobs.get('approx_totals'):
-            cands.append(self.knobs['approx_totals'])
-        for a in cands:
-            if a['method'] == 'cs':
-                tol = max(tol, 1e-9)
+    def _used_fd_steps(self, c):
+        """(min, max) finite-difference step currently cached by the approximation scheme of component c (a
+        plan dict) or of a group (its plan name, '' for the model)."""
+        try:
+            if isinstance(c, str):
+                comp = self.groups[c]
             else:
-                # affine worlds: FD is exact up to round-off amplification eps*|y|/h; quadratic terms
-                # add a first-order truncation error ~ h
-                h = a.get('step') or 1e-6
-                tol = max(tol, 1e-3)
-        return tol
+                comp = self.p.model._get_subsystem(self.absn(c['outs'][0]['name']).rsplit('.', 1)[0])
+            steps = []
+            for name, scheme in comp._approx_schemes.items():
+                if name != 'fd':
+                    continue
+                for grp in (scheme._approx_groups or []):
+                    steps.append(np.abs(np.asarray(grp[1][0], dtype=float)).ravel())
+                for grp in (scheme._colored_approx_groups or []):
+                    steps.append(np.abs(np.asarray(grp[0][0], dtype=float)).ravel())
+            steps = np.concatenate(steps) if steps else np.zeros(0)
+            steps = steps[steps > 0]
+            return (float(steps.min()), float(steps.max())) if steps.size else None
+        except Exception:
+            return None
+
+    def approx_abs_bound(self):
+        """Absolute error an approximation may leave in any entry of a total derivative at the current state,
+        from the plan alone: round-off amplification eps*|terms|/h with the *effective* step of every
+        approximating component / group (relative step_calcs scale with the input values and fall back to
+        OpenMDAO's documented minimum_step of 1e-12 at zero), first-order truncation c*h of one-sided
+        differences on the quadratic stubs, the error nested iterative solvers leave in a differenced state,
+        all carried to the totals through the reference's own gains.  0.0 if nothing is approximated."""
+        y = self.ref.solve()
+        S = self.ref.jac_full(y)
+        gain = (1.0 + float(np.abs(S).max())) ** 2 * max(1, self.ref.N)
+        ufac = 1.0
+        for c in self.world['comps']:
+            for i in c['ins']:
+                if i.get('src'):
+                    f, _o = conv(self.own[i['src']][2]['units'], i['units'])
+                    ufac = max(ufac, abs(f), 1.0 / abs(f))
+        quad_c = max([float(np.abs(q[2]).max()) for q in self.ref.quads], default=0.0)
+
+        def terms(c):
+            m = 0.0
+            for o in c['outs']:
+                t = np.abs(np.array(c['b'][o['name']], dtype=float))
+                for i in c['ins']:
+                    x = np.abs(self.ref.input_val(i['name'], y))
+                    t = t + np.abs(np.array(c['A'][o['name']][i['name']], dtype=float)) @ x
+                    m = max(m, float(x.max()) * float(np.abs(np.array(c['A'][o['name']][i['name']])).max()))
+                m = max(m, float(t.max()))
+            q = c.get('quad')
+            if q:
+                x0 = float(self.ref.input_val(q['in'], y)[0])
+                m += float(np.abs(q['coef']).max()) * x0 * x0
+            return m + 1.0
+        delta = 0.0
+        stubs = [c for c in self.world['comps'] if c['kind'] != 'ivc']
+        for c in stubs:
+            a = c.get('approx')
+            if not a:
+                continue
+            if a['method'] == 'cs':
+                delta += 1e-13 * terms(c)
+                continue
+            hmin, hmax = np.inf, 0.0
+            for i in c['ins']:
+                x = np.abs(self.ref.input_val(i['name'], y))
+                sc = a.get('step_calc', 'abs')
+                if sc == 'abs':
+                    h = np.array([a['step']])
+                elif sc in ('rel_avg', 'rel'):
+                    h = np.array([max(a['step'] * float(x.sum()) / len(x), 1e-12)])
+                elif sc == 'rel_legacy':
+                    h = np.array([max(a['step'] * float(np.linalg.norm(x)), 1e-12)])
+                else:
+                    h = np.maximum(a['step'] * x, 1e-12)
+                hmin, hmax = min(hmin, float(h.min())), max(hmax, float(h.max()))
+            # relative steps are computed once, at the state of the component's first linearization (which may
+            # be an unconverged Newton iterate or the declared initial values), and kept: read the steps the
+            # framework really holds and bound with the smaller / larger of the two
+            used = self._used_fd_steps(c)
+            if used:
+                hmin, hmax = min(hmin, used[0]), max(hmax, used[1])
+            delta += 64 * EPS * terms(c) / hmin
+            if c.get('quad') and a['form'] != 'central':
+                delta += float(np.abs(c['quad']['coef']).max()) * hmax
+        ga_scoped = [(g_, a) for g_, a in (self.knobs.get('group_approx') or {}).items() if g_ in self.world['groups']]
+        if self.knobs.get('approx_totals'):
+            ga_scoped.append(('', self.knobs['approx_totals']))
+        for g_, a in ga_scoped:
+            allterms = max([terms(c) for c in stubs], default=1.0)
+            fixed_point_inside = any(s_['nl'] in ('nlbgs', 'nlbj', 'broyden') for gn, s_ in self.world['solvers'].items()
+                                     if g_ == '' or gn == g_ or gn.startswith(g_ + '.'))
+            if a['method'] == 'cs':
+                delta += 1e-13 * allterms
+                if fixed_point_inside:
+                    # Under a complex step the solver still stops on its (real) residual: it is nudged by
+                    # 1e-10*|y| (cs_reconverge) and sweeps until atol = 1e-11*|y| is met again, so the
+                    # imaginary part -- the derivative -- is only contracted by about that ratio.  The
+                    # accuracy of cs across a fixed-point solver is the solver's, not round-off.
+                    delta += 0.5 * float(np.abs(S).max())
+                    self.probes.inc('cs_across_fixed_point_solver_bound_vacuous')
+                continue
+            h = hmax = a.get('step') or 1e-6
+            # a group's approximation inherits step_calc (and anything else it does not set itself) from the
+            # metadata of partials its components declared as approximated, and relative steps are computed
+            # once and kept: bound with the steps the framework really holds
+            used = self._used_fd_steps(g_)
+            if used:
+                h, hmax = min(h, used[0]), max(hmax, used[1])
+            delta += 64 * EPS * allterms * ufac / h + 2.0 * self.state_err_bound() / h
+            if a.get('form', 'forward') != 'central':
+                delta += quad_c * hmax * ufac
+        return delta * gain * ufac
